@@ -34,8 +34,9 @@ import (
 // through its body as if it were inlined.
 
 type helperInfo struct {
-	owner *ssa.Function
-	sites []ssa.CallInstruction
+	owner  *ssa.Function   // the single owner; nil when several functions share the helper
+	owners []*ssa.Function // every top-level function the helper executes on behalf of
+	sites  []ssa.CallInstruction
 }
 
 var newHelpers = map[*ssa.Function]*helperInfo{}
@@ -44,8 +45,11 @@ var newHelpers = map[*ssa.Function]*helperInfo{}
 func helpersOf(fn *ssa.Function) []*ssa.Function {
 	var out []*ssa.Function
 	for h, hi := range newHelpers {
-		if hi.owner == fn {
-			out = append(out, h)
+		for _, o := range hi.owners {
+			if o == fn {
+				out = append(out, h)
+				break
+			}
 		}
 	}
 	sort.Slice(out, func(i, j int) bool { return out[i].Pos() < out[j].Pos() })
@@ -54,10 +58,30 @@ func helpersOf(fn *ssa.Function) []*ssa.Function {
 
 // LogicalOwner maps a transparent helper to the function it is part of.
 func LogicalOwner(fn *ssa.Function) *ssa.Function {
-	if hi := newHelpers[fn]; hi != nil {
+	if hi := newHelpers[fn]; hi != nil && hi.owner != nil {
 		return hi.owner
 	}
-	return fn
+	return fn // also for a helper shared by several functions: it has no single owner
+}
+
+// HelperOwners lists the functions a transparent helper is part of (nil for other functions).
+func HelperOwners(fn *ssa.Function) []*ssa.Function {
+	if hi := newHelpers[fn]; hi != nil {
+		return hi.owners
+	}
+	return nil
+}
+
+// siteOwners resolves the top-level function(s) a call site executes in, through helper chains.
+func siteOwners(site ssa.CallInstruction) []*ssa.Function {
+	top := site.Parent()
+	for top.Parent() != nil {
+		top = top.Parent()
+	}
+	if hi := newHelpers[top]; hi != nil {
+		return hi.owners
+	}
+	return []*ssa.Function{top}
 }
 
 // IsTransparentHelper reports whether fn is treated as part of its caller.
@@ -111,14 +135,15 @@ func (p *Program) detectHelpers(frozen NameTable) {
 		}
 		cands[f] = c
 	}
-	// resolve owners through chains of candidates
-	var ownerOf func(f *ssa.Function, depth int) *ssa.Function
-	ownerOf = func(f *ssa.Function, depth int) *ssa.Function {
+	// resolve owners through chains of candidates; a helper may be shared by a few functions
+	// (the same two statements extracted from Add, Update and Remove)
+	var ownersOf func(f *ssa.Function, depth int) map[*ssa.Function]bool
+	ownersOf = func(f *ssa.Function, depth int) map[*ssa.Function]bool {
 		c := cands[f]
 		if c == nil || depth > 4 {
 			return nil
 		}
-		var owner *ssa.Function
+		owners := map[*ssa.Function]bool{}
 		for _, s := range c.sites {
 			top := s.Parent()
 			for top.Parent() != nil {
@@ -128,21 +153,33 @@ func (p *Program) detectHelpers(frozen NameTable) {
 				return nil // recursive
 			}
 			if cands[top] != nil {
-				top = ownerOf(top, depth+1)
-				if top == nil {
+				sub := ownersOf(top, depth+1)
+				if sub == nil {
 					return nil
 				}
+				for o := range sub {
+					owners[o] = true
+				}
+				continue
 			}
-			if owner != nil && owner != top {
-				return nil
-			}
-			owner = top
+			owners[top] = true
 		}
-		return owner
+		if owners[f] || len(owners) == 0 || len(owners) > 4 {
+			return nil
+		}
+		return owners
 	}
 	for f, c := range cands {
-		if o := ownerOf(f, 0); o != nil && o != f {
-			newHelpers[f] = &helperInfo{owner: o, sites: c.sites}
+		if os := ownersOf(f, 0); os != nil {
+			hi := &helperInfo{sites: c.sites}
+			for o := range os {
+				hi.owners = append(hi.owners, o)
+			}
+			sort.Slice(hi.owners, func(i, j int) bool { return FuncName(hi.owners[i]) < FuncName(hi.owners[j]) })
+			if len(hi.owners) == 1 {
+				hi.owner = hi.owners[0]
+			}
+			newHelpers[f] = hi
 		}
 	}
 }
@@ -204,6 +241,9 @@ func liftTo(in ssa.Instruction, target *ssa.Function, depth int) []ssa.Instructi
 		}
 		up := liftTo(si, target, depth+1)
 		if up == nil {
+			if hi.owner == nil {
+				continue // a shared helper: this site belongs to another owner
+			}
 			return nil
 		}
 		out = append(out, up...)
@@ -281,7 +321,13 @@ func renderCtx(v *CtxValue, d int) string {
 // rendered uniformly (different arguments at different sites), else nil.
 func sitesNeedingContext(h *ssa.Function) []ssa.CallInstruction {
 	hi := newHelpers[h]
-	if hi == nil || len(hi.sites) < 2 {
+	if hi == nil {
+		return nil
+	}
+	if hi.owner == nil {
+		return hi.sites // shared by several functions: each site is attributed to its own owner
+	}
+	if len(hi.sites) < 2 {
 		return nil
 	}
 	for _, q := range h.Params {
